@@ -12,6 +12,23 @@ Definition matches (t0 : tokresp) (rec : rtok) : Prop :=
   t_scope t0 = r_scopes rec /\ t_at_sub t0 = r_sub rec /\ t_auth t0 = r_auth rec
   /\ t_azp t0 = r_client rec /\ t_aud t0 = aud_with (r_client rec) (r_aud rec).
 
+(* ... and about any refresh token of that id still stored later on: a non-rotating storage keeps
+   the id while the grant may have been narrowed since *)
+Definition covers (t0 : tokresp) (rec : rtok) : Prop :=
+  subset (r_scopes rec) (t_scope t0) = true /\ t_at_sub t0 = r_sub rec /\ t_auth t0 = r_auth rec
+  /\ t_azp t0 = r_client rec /\ t_aud t0 = aud_with (r_client rec) (r_aud rec).
+
+Lemma matches_covers t0 rec : matches t0 rec -> covers t0 rec.
+Proof. intros [M1 M]. split; [rewrite M1; apply subset_refl | exact M]. Qed.
+
+(* request q came into being through authorization request o: its parameters are o's query
+   parameters, superseded member by member by o's Request Object *)
+Definition made_by (q : areq) (o : op) : Prop :=
+  exists uri scopes nonce chal,
+    o = Authorize (q_client q) uri scopes nonce chal (q_extra q)
+    /\ q_uri q = eff_uri uri (q_extra q) /\ q_scopes q = eff_scopes scopes (q_extra q)
+    /\ q_nonce q = eff_nonce nonce (q_extra q) /\ q_chal q = eff_chal chal (q_extra q).
+
 Section R.
 Variable H : string -> string.
 Variable cf : cfg.
@@ -48,8 +65,7 @@ Qed.
 (* ------------------------------------------------------------ the invariant *)
 Definition req_ok (h : list event) (s : st) := forall q, In q (reqs s) ->
   q_id q <= next s
-  /\ (exists e, In e h /\ e_op e = Authorize (q_client q) (q_uri q) (q_scopes q) (q_nonce q) (q_chal q) (q_extra q)
-                /\ e_out e = OAuthz (Some (q_id q)))
+  /\ (exists e, In e h /\ made_by q (e_op e) /\ e_out e = OAuthz (Some (q_id q)))
   /\ (q_done q = true -> exists e, In e h /\ e_op e = Login (q_id q) (q_sub q) (q_auth q) /\ e_out e = OLogin true).
 
 Definition codes_ok (h : list event) (s : st) := forall c n, In (c, n) (codes s) ->
@@ -69,10 +85,11 @@ Definition rts_ok (h : list event) (s : st) := forall t, In t (rtoks s) ->
 
 Definition issued_ok (h : list event) (s : st) := forall e t0 n,
   In e h -> e_out e = OTokens t0 -> t_rt t0 = Some n ->
-  n <= next s /\ forall rec, find_rt s n = Some rec -> matches t0 rec.
+  n <= next s /\ forall rec, find_rt s n = Some rec -> covers t0 rec.
 
 Definition rotated_ok (h : list event) (s : st) := forall e pl cr n sc,
   In e h -> e_op e = TokenRefresh pl cr (Some n) sc -> is_tokens (e_out e) = true ->
+  f_keep cf = false ->      (* a rotating storage *)
   n <= next s /\ find_rt s n = None.
 
 Record Inv (h : list event) (s : st) : Prop := {
@@ -129,18 +146,23 @@ Proof.
 Qed.
 
 Lemma issue_refresh_shape s t c sc :
-  let s' := fst (issue_refresh s t c sc) in
-  reqs s' = reqs s /\ codes s' = codes s /\ ncode s' = ncode s /\ next s' = S (S (next s))
-  /\ exists t0 new, snd (issue_refresh s t c sc) = OTokens t0
-     /\ t_rt t0 = Some (S (next s)) /\ r_id new = S (next s) /\ matches t0 new
+  let s' := fst (issue_refresh cf s t c sc) in
+  reqs s' = reqs s /\ codes s' = codes s /\ ncode s' = ncode s /\ next s < next s'
+  /\ exists t0 new, snd (issue_refresh cf s t c sc) = OTokens t0
+     /\ t_rt t0 = Some (r_id new) /\ matches t0 new
      /\ rtoks s' = new :: filter (fun x => negb (Nat.eqb (r_id x) (r_id t))) (rtoks s)
-     /\ r_scopes new = sc /\ r_sub new = r_sub t /\ r_auth new = r_auth t /\ r_client new = r_client t /\ r_aud new = r_aud t.
+     /\ r_scopes new = sc /\ r_sub new = r_sub t /\ r_auth new = r_auth t /\ r_client new = r_client t /\ r_aud new = r_aud t
+     /\ ((f_keep cf = false /\ r_id new = S (next s) /\ next s' = S (S (next s)))
+         \/ (f_keep cf = true /\ r_id new = r_id t /\ next s' = S (next s))).
 Proof.
   unfold issue_refresh. cbn [fst snd reqs codes rtoks next ncode].
-  repeat split. eexists.
-  exists {| r_id := S (next s); r_client := r_client t; r_sub := r_sub t; r_aud := r_aud t;
+  split; [reflexivity|]. split; [reflexivity|]. split; [reflexivity|].
+  split; [destruct (f_keep cf); lia|].
+  eexists.
+  exists {| r_id := if f_keep cf then r_id t else S (next s); r_client := r_client t; r_sub := r_sub t; r_aud := r_aud t;
             r_auth := r_auth t; r_scopes := sc |}.
-  split; [reflexivity|]. cbn. repeat split; reflexivity.
+  split; [reflexivity|]. cbn. repeat split; try reflexivity.
+  destruct (f_keep cf); [right | left]; auto.
 Qed.
 
 Lemma inv_init : Inv [] init.
@@ -172,7 +194,7 @@ Proof.
     + intros t Hin. destruct (Irts t Hin) as [A [e [t0 [B1 B2]]]]. split; [exact A | oldrt].
     + intros e t0 n Hin Ho Hk. apply in_snoc in Hin as [Hin | ->]; [eauto|].
       cbn in Ho. subst x. contradiction.
-    + intros e pl0 cr n sc Hin Ho Hk. apply in_snoc in Hin as [Hin | ->]; [eauto|].
+    + intros e pl0 cr n sc Hin Ho Hk Hkp. apply in_snoc in Hin as [Hin | ->]; [eauto|].
       cbn in Hk. destruct x; try discriminate. contradiction.
 Qed.
 
@@ -194,7 +216,8 @@ Proof.
     constructor; unfold req_ok, codes_ok, codes_fun, used_ok, rts_ok, issued_ok, rotated_ok, find_req, find_rt;
       cbn [reqs codes rtoks next ncode].
     + intros q [<- | Hin]; cbn.
-      * split; [lia|]. split; [exists ev; auto | discriminate].
+      * split; [lia|]. split; [|discriminate]. exists ev. split; [exact Hnew|]. split; [|reflexivity].
+        exists uri, scopes, nonce, chal. cbn. auto.
       * destruct (Ireq q Hin) as [A [[e [B1 B2]] C]]. split; [lia|]. split; [old|].
         intro Hd. destruct (C Hd) as [e' [C1 C2]]. old.
     + intros c n Hin. destruct (Icodes c n Hin) as [A [[q [B1 B2]] [e [C1 C2]]]].
@@ -207,8 +230,8 @@ Proof.
     + intros t Hin. destruct (Irts t Hin) as [A [e [t0 [B1 B2]]]]. split; [lia | oldrt].
     + intros e t0 n Hin Ho Hk. apply in_snoc in Hin as [Hin | ->]; [|discriminate].
       destruct (Iissued e t0 n Hin Ho Hk) as [A B]. split; [lia | exact B].
-    + intros e pl0 cr n sc Hin Ho Hk. apply in_snoc in Hin as [Hin | ->]; [|discriminate].
-      destruct (Irot e pl0 cr n sc Hin Ho Hk) as [A B]. split; [lia | exact B].
+    + intros e pl0 cr n sc Hin Ho Hk Hkp. apply in_snoc in Hin as [Hin | ->]; [|discriminate].
+      destruct (Irot e pl0 cr n sc Hin Ho Hk Hkp) as [A B]. split; [lia | exact B].
   - (* login *)
     constructor; unfold req_ok, codes_ok, codes_fun, used_ok, rts_ok, issued_ok, rotated_ok, find_req, find_rt;
       cbn [reqs codes rtoks next ncode].
@@ -225,7 +248,7 @@ Proof.
     + intros e pl0 f0 cr c uri' ver Hin Ho Hk. apply in_snoc in Hin as [Hin | ->]; [eauto | discriminate].
     + intros t Hin. destruct (Irts t Hin) as [A [e [t0 [B1 B2]]]]. split; [exact A | oldrt].
     + intros e t0 m Hin Ho Hk. apply in_snoc in Hin as [Hin | ->]; [eauto | discriminate].
-    + intros e pl0 cr m sc Hin Ho Hk. apply in_snoc in Hin as [Hin | ->]; [eauto | discriminate].
+    + intros e pl0 cr m sc Hin Ho Hk Hkp. apply in_snoc in Hin as [Hin | ->]; [eauto | discriminate].
   - (* callback *)
     constructor; unfold req_ok, codes_ok, codes_fun, used_ok, rts_ok, issued_ok, rotated_ok, find_req, find_rt;
       cbn [reqs codes rtoks next ncode].
@@ -244,7 +267,7 @@ Proof.
       intros m [E | Hin']; [inversion E; lia | eapply B; eauto].
     + intros t Hin. destruct (Irts t Hin) as [A [e [t0 [B1 B2]]]]. split; [exact A | oldrt].
     + intros e t0 m Hin Ho Hk. apply in_snoc in Hin as [Hin | ->]; [eauto | discriminate].
-    + intros e pl0 cr m sc Hin Ho Hk. apply in_snoc in Hin as [Hin | ->]; [eauto | discriminate].
+    + intros e pl0 cr m sc Hin Ho Hk Hkp. apply in_snoc in Hin as [Hin | ->]; [eauto | discriminate].
   - (* code exchange *)
     destruct (issue_code_shape s q c) as [Sreq [Scodes [Sncode [Snext [t0 [Sout Srt]]]]]].
     destruct (code_req_in _ _ _ Hcr) as [Hcin Hqf].
@@ -283,25 +306,34 @@ Proof.
         destruct Srt as [[Hnone _] | [new [St0 [Srt [Hid [Hle Hm]]]]]]; [congruence|].
         rewrite St0 in Hk. injection Hk as <-. split; [exact Hle|].
         intros rec Hf. unfold find_rt in Hf. rewrite Srt in Hf. cbn [find] in Hf.
-        rewrite Hid, Nat.eqb_refl in Hf. injection Hf as <-. exact Hm.
-    + intros e pl0 cr' m sc Hin Ho Hk. apply in_snoc in Hin as [Hin | ->]; [|discriminate].
-      destruct (Irot e pl0 cr' m sc Hin Ho Hk) as [A B]. split; [lia|].
+        rewrite Hid, Nat.eqb_refl in Hf. injection Hf as <-. now apply matches_covers.
+    + intros e pl0 cr' m sc Hin Ho Hk Hkp. apply in_snoc in Hin as [Hin | ->]; [|discriminate].
+      destruct (Irot e pl0 cr' m sc Hin Ho Hk Hkp) as [A B]. split; [lia|].
       destruct Srt as [[_ Srt] | [new [St0 [Srt [Hid [Hle Hm]]]]]]; unfold find_rt in B |- *; rewrite Srt; [exact B|].
       cbn [find]. rewrite Hid. destruct (Nat.eqb (S (next s)) m) eqn:E; [apply Nat.eqb_eq in E; lia | exact B].
   - (* refresh *)
-    destruct (issue_refresh_shape s t c sc) as [Sreq [Scodes [Sncode [Snext [t0 [new [Sout [St0 [Hid [Hm [Srt _]]]]]]]]]]].
+    destruct (issue_refresh_shape s t c sc)
+      as [Sreq [Scodes [Sncode [Snext [t0 [new [Sout [St0 [Hm [Srt [Nsc [Nsub [Nauth [Ncl [Naud Hpol]]]]]]]]]]]]]]].
     destruct (find_rt_in _ _ _ Hrt) as [Htin Htid].
     destruct (Irts t Htin) as [Htle _].
-    fold ev. set (s1 := fst (issue_refresh s t c sc)) in *. set (x1 := snd (issue_refresh s t c sc)) in *.
+    destruct (narrowed_subset _ _ _ Hn) as [Hscsub _].
+    fold ev. set (s1 := fst (issue_refresh cf s t c sc)) in *. set (x1 := snd (issue_refresh cf s t c sc)) in *.
+    assert (Hidle : r_id new <= next s1) by (destruct Hpol as [[_ [-> ->]] | [_ [-> ->]]]; lia).
+    assert (Hfnew : find_rt s1 (r_id new) = Some new).
+    { unfold find_rt. rewrite Srt. cbn [find]. now rewrite Nat.eqb_refl. }
     assert (Hfo : forall m, m <= next s -> m <> n -> find_rt s1 m = find_rt s m).
-    { intros m Hle Hne. unfold find_rt. rewrite Srt. cbn [find]. rewrite Hid.
-      destruct (Nat.eqb (S (next s)) m) eqn:E; [apply Nat.eqb_eq in E; lia|].
+    { intros m Hle Hne. unfold find_rt. rewrite Srt. cbn [find].
+      destruct (Nat.eqb (r_id new) m) eqn:E.
+      { apply Nat.eqb_eq in E. destruct Hpol as [[_ [Hi _]] | [_ [Hi _]]]; rewrite Hi in E; lia. }
       apply find_filter_keep. intros y Ey. apply Nat.eqb_eq in Ey. rewrite Ey, Htid.
       apply negb_true_iff, Nat.eqb_neq. exact Hne. }
-    assert (Hfn : find_rt s1 n = None).
-    { unfold find_rt. rewrite Srt. cbn [find]. rewrite Hid.
+    assert (Hfn : f_keep cf = false -> find_rt s1 n = None).
+    { intro Hkp. destruct Hpol as [[_ [Hi _]] | [Hk' _]]; [|congruence].
+      unfold find_rt. rewrite Srt. cbn [find]. rewrite Hi.
       destruct (Nat.eqb (S (next s)) n) eqn:E; [apply Nat.eqb_eq in E; lia|].
       apply find_filter_drop. intros y Ey. apply Nat.eqb_eq in Ey. rewrite Ey, Htid, Nat.eqb_refl. reflexivity. }
+    assert (Hfk : f_keep cf = true -> find_rt s1 n = Some new).
+    { intro Hkp. destruct Hpol as [[Hk' _] | [_ [Hi _]]]; [congruence|]. rewrite <- Htid, <- Hi. exact Hfnew. }
     constructor.
     + intros q' Hin. rewrite Sreq in Hin. destruct (Ireq q' Hin) as [A [[e [B1 B2]] C]].
       split; [lia|]. split; [old|]. intro Hd0. destruct (C Hd0) as [e' [C1 C2]]. old.
@@ -310,19 +342,23 @@ Proof.
     + intros c' m m' Hin Hin'. rewrite Scodes in Hin, Hin'. eapply Ifun; eauto.
     + intros e pl0 f0 cr' c' uri' ver' Hin Ho Hk. rewrite Sncode, Scodes. apply in_snoc in Hin as [Hin | ->]; [eauto | discriminate].
     + intros t' Hin. rewrite Srt in Hin. destruct Hin as [<- | Hin].
-      * split; [lia|]. exists ev, t0. rewrite Hid. auto.
+      * split; [exact Hidle|]. exists ev, t0. auto.
       * apply filter_In in Hin as [Hin _]. destruct (Irts t' Hin) as [A [e [t1 [B1 B2]]]]. split; [lia | oldrt].
     + intros e t1 m Hin Ho Hk. apply in_snoc in Hin as [Hin | ->].
       * destruct (Iissued e t1 m Hin Ho Hk) as [A B]. split; [lia|].
-        intros rec Hf. apply B. destruct (Nat.eq_dec m n) as [-> | Hne]; [congruence|].
-        rewrite <- Hfo; auto.
+        intros rec Hf. destruct (Nat.eq_dec m n) as [-> | Hne].
+        -- destruct (f_keep cf) eqn:Hkp.
+           ++ rewrite (Hfk eq_refl) in Hf. injection Hf as <-.
+              destruct (B t Hrt) as [C1 [C2 [C3 [C4 C5]]]]. unfold covers.
+              rewrite Nsc, Nsub, Nauth, Ncl, Naud. split; [eapply subset_trans; eauto | auto].
+           ++ rewrite (Hfn eq_refl) in Hf. discriminate.
+        -- apply B. rewrite <- Hfo; auto.
       * change (e_out ev) with x1 in Ho. rewrite Sout in Ho. injection Ho as <-. rewrite St0 in Hk. injection Hk as <-.
-        split; [lia|]. intros rec Hf. unfold find_rt in Hf. rewrite Srt in Hf. cbn [find] in Hf.
-        rewrite Hid, Nat.eqb_refl in Hf. injection Hf as <-. exact Hm.
-    + intros e pl0 cr' m sc' Hin Ho Hk. apply in_snoc in Hin as [Hin | ->].
-      * destruct (Irot e pl0 cr' m sc' Hin Ho Hk) as [A B]. split; [lia|].
-        destruct (Nat.eq_dec m n) as [-> | Hne]; [exact Hfn|]. rewrite Hfo; auto.
-      * cbn in Ho. injection Ho as <- <- <- <-. split; [lia | exact Hfn].
+        split; [exact Hidle|]. intros rec Hf. rewrite Hfnew in Hf. injection Hf as <-. now apply matches_covers.
+    + intros e pl0 cr' m sc' Hin Ho Hk Hkp. apply in_snoc in Hin as [Hin | ->].
+      * destruct (Irot e pl0 cr' m sc' Hin Ho Hk Hkp) as [A B]. split; [lia|].
+        destruct (Nat.eq_dec m n) as [-> | Hne]; [now apply Hfn|]. rewrite Hfo; auto.
+      * cbn in Ho. injection Ho as <- <- <- <-. split; [lia | now apply Hfn].
   - (* the refresh grant of a client is withdrawn: storage objects untouched *)
     constructor; unfold req_ok, codes_ok, codes_fun, used_ok, rts_ok, issued_ok, rotated_ok, find_req, find_rt;
       cbn [reqs codes rtoks next ncode].
@@ -333,7 +369,7 @@ Proof.
     + intros e pl0 f0 cr c uri ver Hin Ho Hk. apply in_snoc in Hin as [Hin | ->]; [eauto | discriminate].
     + intros t Hin. destruct (Irts t Hin) as [A [e [t0 [B1 B2]]]]. split; [exact A | oldrt].
     + intros e t0 n Hin Ho Hk. apply in_snoc in Hin as [Hin | ->]; [eauto | discriminate].
-    + intros e pl0 cr n sc Hin Ho Hk. apply in_snoc in Hin as [Hin | ->]; [eauto | discriminate].
+    + intros e pl0 cr n sc Hin Ho Hk Hkp. apply in_snoc in Hin as [Hin | ->]; [eauto | discriminate].
 Qed.
 
 Lemma reach_inv h s : reach h s -> Inv h s.
